@@ -173,7 +173,7 @@ def run(facts, tr, rep):
         if not (ok and not reach):
             # path form on the fully inlined program: an extracted `fail_if_injected(..)?` returns Err(e) / Ok(()) and the
             # caller branches on that; the outcome is carried over the join by the feasibility tags
-            fi_, tri_ = facts.inl, tr.inl
+            fi_, tri_ = facts, tr          # (this module already runs on the fully inlined view)
             for sbi in service_call_bodies(fi_, crate=CRATE)[:1]:
                 for (bi, ci) in inner_calls(fi_, sbi):
                     gi_ = graph(bi)
